@@ -45,6 +45,8 @@ struct ExactBuf {
 static bool parse_code_ok(int c) { return (c >= 1 && c <= 10) || c == 15; }
 
 // ---------------------------------------------------------------- C01
+template <class Doc>
+static void c01_judge(Doc& doc, const std::string& text, const ref::Result& r, const std::string& sfx, vr::Ctx& ctx);
 static void check_C01(const std::string& text, vr::Ctx& ctx) {
   ref::Result r = ref::parse(text);
   ExactBuf b(text);
@@ -53,29 +55,34 @@ static void check_C01(const std::string& text, vr::Ctx& ctx) {
   ctx.eval();
   if (r.ok || r.tokens >= 2) ctx.nontriv();
   if (r.ok) ctx.count(0);
+  c01_judge(doc, text, r, "", ctx);
+}
+// the C01 oracle on a document that has just parsed `text` (sfx distinguishes fresh and reused documents in the class name)
+template <class Doc>
+static void c01_judge(Doc& doc, const std::string& text, const ref::Result& r, const std::string& sfx, vr::Ctx& ctx) {
   bool acc = !doc.HasParseError();
   int code = (int)doc.GetParseError();
   size_t off = doc.GetErrorOffset();
   if (acc != r.ok) {
-    ctx.violation("accept_mismatch", acc ? "accepts_invalid" : "rejects_valid", text,
+    ctx.violation("accept_mismatch", std::string((acc ? "accepts_invalid" : "rejects_valid")) + sfx, text,
                   "impl %s (code %d, offset %zu) but reference %s (fault %d at %zu)", acc ? "accepts" : "rejects", code,
                   off, r.ok ? "accepts" : "rejects", (int)r.fault, r.fault_off);
     return;
   }
   if (acc) {
-    if (code != 0) ctx.violation("success_code", "success_code", text, "success with code %d", code);
+    if (code != 0) ctx.violation("success_code", std::string("success_code") + sfx, text, "success with code %d", code);
     if (off != text.size())
-      ctx.violation("success_offset", "success_offset", text, "success but offset %zu != length %zu", off, text.size());
+      ctx.violation("success_offset", std::string("success_offset") + sfx, text, "success but offset %zu != length %zu", off, text.size());
     return;
   }
-  if (!doc.IsNull()) ctx.violation("failure_not_null", "failure_not_null", text, "document not null after failed parse (code %d)", code);
-  if (!parse_code_ok(code)) ctx.violation("failure_code_range", "failure_code_range", text, "code %d is not a parse error code", code);
+  if (!doc.IsNull()) ctx.violation("failure_not_null", std::string("failure_not_null") + sfx, text, "document not null after failed parse (code %d)", code);
+  if (!parse_code_ok(code)) ctx.violation("failure_code_range", std::string("failure_code_range") + sfx, text, "code %d is not a parse error code", code);
   if (off > text.size())
-    ctx.violation("offset_gt_len", "offset_gt_len", text, "error offset %zu > length %zu (code %d)", off, text.size(), code);
+    ctx.violation("offset_gt_len", std::string("offset_gt_len") + sfx, text, "error offset %zu > length %zu (code %d)", off, text.size(), code);
   if (r.lenient_ok && r.bad_literals == 0 && r.overflow_numbers >= 1) {
     ctx.count(1);
     if (code != kParseErrorInfinity)
-      ctx.violation("fault_class", "class_infinity", text, "only fault is an overflowing number but code is %d, not kParseErrorInfinity", code);
+      ctx.violation("fault_class", std::string("class_infinity") + sfx, text, "only fault is an overflowing number but code is %d, not kParseErrorInfinity", code);
   }
   if (r.lenient_ok && r.bad_literals == 1 && r.overflow_numbers == 0) {
     ctx.count(2);
@@ -84,8 +91,22 @@ static void check_C01(const std::string& text, vr::Ctx& ctx) {
               (code == kParseErrorEscapedFormat && (cls & ref::SC_ESCAPE)) ||
               (code == kParseErrorEscapedUnicode && (cls & ref::SC_UNICODE));
     if (!ok)
-      ctx.violation("fault_class", "class_string", text, "only fault is one malformed string literal with fault classes %d (1=control 2=escape 4=unicode) but code is %d", cls, code);
+      ctx.violation("fault_class", std::string("class_string") + sfx, text, "only fault is one malformed string literal with fault classes %d (1=control 2=escape 4=unicode) but code is %d", cls, code);
   }
+}
+
+// C01 after a history: Y parsed into a document that has parsed X before must be judged exactly like Y on a fresh document
+template <class Doc>
+static void c01_after_history(const std::string& X, const std::string& Y, const char* tag, vr::Ctx& ctx) {
+  ref::Result r = ref::parse(Y);
+  Doc doc;
+  {
+    ExactBuf bx(X);
+    doc.Parse(bx.p, bx.n);
+  }
+  ExactBuf by(Y);
+  doc.Parse(by.p, by.n);
+  c01_judge(doc, Y, r, std::string("_after_history_") + tag, ctx);
 }
 
 // ---------------------------------------------------------------- C03
@@ -301,6 +322,7 @@ int main(int argc, char** argv) {
     tf.push_back(fam::make_LX(lxbase, quick ? 3 : 4));
     tf.push_back(fam::make_LN());
     tf.push_back(fam::make_LU());
+    tf.push_back(fam::make_LH(quick ? 18 : 20));
   } else if (prop == "C03") {
     tf.push_back(fam::make_LA(quick ? 7 : 8));
     tf.push_back(fam::make_LA1(quick ? 5 : 6));
@@ -313,6 +335,7 @@ int main(int argc, char** argv) {
     tf.push_back(fam::make_LX(lxbase, quick ? 3 : 4));
     tf.push_back(fam::make_LN());
     tf.push_back(fam::make_LU());
+    tf.push_back(fam::make_LH(quick ? 18 : 20));
   } else if (prop == "C02") {
     tf.push_back(fam::make_L0(quick ? 4 : 5));
     tf.push_back(fam::make_LA(quick ? 5 : 6));
@@ -323,6 +346,7 @@ int main(int argc, char** argv) {
     tf.push_back(fam::make_LW());
     tf.push_back(fam::make_LX(lxbase, 3));
     tf.push_back(fam::make_LN());
+    tf.push_back(fam::make_LH(quick ? 18 : 20));
   } else {
     fprintf(stderr, "jsonenum: --prop C01|C02|C03 required\n");
     return 2;
@@ -331,13 +355,36 @@ int main(int argc, char** argv) {
   // history families (C02 only)
   HistSet hs;
   vr::Family fpairs, ftriples;
-  vr::Family fhv;
-  if (prop == "C02" || prop == "C03") {
+  vr::Family fhv, fh1;
+  if (prop == "C01" || prop == "C02" || prop == "C03") {
     auto b = fam::base_valid(4, false, 2);
     for (auto& x : b) hs.S.push_back(x.join());
     for (const char* s : {"", " ", "[", "{", "{\"a\":", "{\"a\":{\"b\":[1,", "[1,2", "\"abc", "{\"a\":1}", "{\"a\":[1,{\"a\":2}],\"b\":\"s\"}", "{\"b\":1,\"a\":\"x\\ny\"}",
                           "[[[[[[[[[[[[[[[[[[[[[[[[],[],1]", "[[[[[[[[[[[[[[[[[[[[[[[[]]]]]]]]]]]]]]]]]]]]]]]]", "1e400", "[\"\\ud800\"]", "{\"a\":\"" "xxxxxxxxxxxxxxxxxxxxxxxxxxxxxxxxxxxxxxxxxxxxxxxxxxxxxxxxxxxxxxxxxxxxxxxxxxxx" "\"}"})
       hs.S.push_back(s);
+    // whitespace layouts: a parser object that survives between calls may keep scanning state (cached whitespace
+    // bitmaps, block offsets) from the previous text; runs of >= 2 whitespace bytes at different offsets, valid
+    // and with garbage where another layout has whitespace, and a long pretty-printed document
+    {
+      static const unsigned R[4] = {0, 2, 5, 12};
+      for (unsigned a : R)
+        for (unsigned bb : R)
+          for (unsigned c : R) {
+            hs.S.push_back("[1," + std::string(a, ' ') + "2," + std::string(bb, ' ') + "3" + std::string(c, ' ') + "]");
+            if (bb) hs.S.push_back("[1," + std::string(a, ' ') + "2," + std::string(bb, '@') + "3" + std::string(c, ' ') + "]");
+          }
+      std::string big = "{\n";
+      for (int i = 0; i < 40; i++) big += "    \"k" + std::to_string(i) + "\":   [ 1,\n        2 ]" + (i < 39 ? ",\n" : "\n");
+      big += "}";
+      hs.S.push_back(big);
+      hs.S.push_back("[1,  2]");
+      hs.S.push_back("{ \"a\"  :  [ 1 ,  { \"a\" :  2 } ] ,  \"b\"  : \"s\"  }");
+    }
+    fh1.name = "H1_outcome_after_history";
+    fh1.count = (uint64_t)hs.S.size() * hs.S.size();
+    fh1.group = "H1";
+    fh1.chunk = 64;
+    fh1.rule = "all ordered pairs (X,Y) over the " + std::to_string(hs.S.size()) + "-text set (valid, invalid, truncated, deep, whitespace layouts with runs at different offsets, garbage where another layout has whitespace, a long pretty-printed document): Parse X ; Parse Y on ONE document (pool and freeing allocator): Y must be accepted / rejected / reported exactly as the C01 oracle demands for Y alone";
     fhv.name = "H2v_value_after_history";
     fhv.count = (uint64_t)hs.S.size() * hs.S.size() * 3;
     fhv.group = "H2v";
@@ -363,6 +410,16 @@ int main(int argc, char** argv) {
   for (auto& f : tf) byname[f.meta.name] = &f;
 
   vr::CheckFn check = [&](const vr::Family& f, uint64_t idx, vr::Ctx& ctx) {
+    if (f.name == "H1_outcome_after_history") {
+      const std::string& X = hs.S[idx / hs.S.size()];
+      const std::string& Y = hs.S[idx % hs.S.size()];
+      ctx.eval();
+      ctx.nontriv();
+      if (ctx.want_sample) ctx.sample(X + " ; " + Y);
+      c01_after_history<PoolDoc>(X, Y, "pool", ctx);
+      c01_after_history<SimpleDoc>(X, Y, "simple", ctx);
+      return;
+    }
     if (f.name == "H2v_value_after_history") {
       int mode = (int)(idx % 3);
       uint64_t r = idx / 3;
@@ -431,6 +488,7 @@ int main(int argc, char** argv) {
     if (!quick) fams.push_back(ftriples);
   }
   if (prop == "C03") fams.push_back(fhv);
+  if (prop == "C01") fams.push_back(fh1);
   if (args.replay) return R.replay_one(fams, check);
   const std::string only = args.get("only");
   for (auto& f : fams)
